@@ -7,7 +7,7 @@ import itertools
 from ..model import CFG, PDA, FST, ENFA, RSA, BOX
 from . import names
 from .common import site_of
-from .flow import (own, Oblig, calls, events, deps_of, arg_deps, SELF, P, result_locs)
+from .flow import (code_nodes, block_atoms, own, Oblig, calls, events, deps_of, arg_deps, SELF, P, result_locs)
 
 EXPLANATION = (
     "Decides writer / reader agreement, from constants and boolean structure only: for automata, PDAs and transducers "
@@ -71,8 +71,11 @@ def run(eng, rep, tier):
                   "label separators written %s = separators split on" % wsep,
                   "to_networkx writes the separators %s, from_networkx splits on %s" % (wsep, rsep), None,
                   site=site_of(prog, r, r.node))
-        nd = sum(1 for c in ast.walk(w.node) if isinstance(c, ast.Call) and ast.unparse(c.func) == "json.dumps")
-        nl = sum(1 for c in ast.walk(r.node) if isinstance(c, ast.Call) and ast.unparse(c.func) == "json.loads")
+        # counted over the writer / reader and the private helpers they call (a label built or cached by a helper)
+        nd = sum(1 for fn_ in code_nodes(prog, w) for c in ast.walk(fn_)
+                 if isinstance(c, ast.Call) and ast.unparse(c.func) == "json.dumps")
+        nl = sum(1 for fn_ in code_nodes(prog, r) for c in ast.walk(fn_)
+                 if isinstance(c, ast.Call) and ast.unparse(c.func) == "json.loads")
         ob.decide("R7", "C20.1", r, "json-fields-agree:" + cname, nd == nl,
                   "%d json.dumps fields, %d json.loads" % (nd, nl),
                   "to_networkx encodes %d fields with json.dumps, from_networkx decodes %d" % (nd, nl), None,
@@ -114,7 +117,8 @@ def run(eng, rep, tier):
     ob.decide("R7", "C20.2", rl, "markers-agree", sorted(wv + wt) == sorted(rm) and len(rm) == 2,
               "the markers written by to_text are the ones recognised by the reader",
               "markers written %s, recognised %s" % (wv + wt, rm), None, site=site_of(prog, ist, ist.node))
-    slices = sorted(ast.unparse(s.slice) for s in ast.walk(rl.node) if isinstance(s, ast.Subscript) and isinstance(s.slice, ast.Slice))
+    slices = sorted(ast.unparse(s.slice) for fn_ in code_nodes(prog, rl) for s in ast.walk(fn_)
+                    if isinstance(s, ast.Subscript) and isinstance(s.slice, ast.Slice))
     mlen = len(rm[0]) if rm else 0
     ok = ("%d:-1" % mlen) in slices and "1:4" in slices and all(m[1:4] in ("VAR", "TER") for m in rm)
     ob.decide("R7", "C20.2", rl, "slices-match-markers", ok, "the reader strips exactly the marker and its closing quote",
@@ -189,19 +193,25 @@ def run(eng, rep, tier):
 
         def pred_classes_(t):
             return _pc(t, defs)
+        cands = []
         for sub in ast.walk(fn.node):
             if isinstance(sub, ast.If):
-                in_body = any(isinstance(r, ast.Return) and has_marker(r) for r in sub.body)
-                in_else = any(isinstance(r, ast.Return) and has_marker(r) for r in sub.orelse)
+                # the marker is put on by a return or by an assignment (`text = '"VAR:' + text + '"'`) in one branch
+                in_body = any(isinstance(r, (ast.Return, ast.Assign, ast.AugAssign)) and has_marker(r) for r in sub.body)
+                in_else = any(isinstance(r, (ast.Return, ast.Assign, ast.AugAssign)) and has_marker(r) for r in sub.orelse)
                 if in_body and not in_else:
-                    return pred_classes_(sub.test)
+                    cands.append(pred_classes_(sub.test))
                 if in_else and not in_body:
-                    return neg(pred_classes_(sub.test))
+                    cands.append(neg(pred_classes_(sub.test)))
                 if not in_body and not sub.orelse and any(isinstance(r, ast.Return) for r in sub.body):
                     # `if c: return text` followed by `return '"VAR:' + text + '"'`
-                    return neg(pred_classes_(sub.test))
+                    cands.append(neg(pred_classes_(sub.test)))
             if isinstance(sub, ast.IfExp) and (has_marker(sub.body) != has_marker(sub.orelse)):
-                return pred_classes_(sub.test) if has_marker(sub.body) else neg(pred_classes_(sub.test))
+                cands.append(pred_classes_(sub.test) if has_marker(sub.body) else neg(pred_classes_(sub.test)))
+        # tests that are not about the first character (a cache look-up, say) are not the marker predicate
+        cands = [c for c in cands if c is not None and c != "nonempty"]
+        if cands:
+            return cands[0]
         return None
     mark_v, mark_t = marker_pred(vt), marker_pred(tt)
     reader_upper = None
@@ -275,20 +285,25 @@ def run(eng, rep, tier):
 
 
 def classifier_table(fn):
-    """Boolean skeleton of the reader's if/elif chain over the atoms it tests; returns a function atoms -> class name
-    (or None when no branch applies)."""
-    chain = None
-    for sub in ast.walk(fn.node):
-        if isinstance(sub, ast.If) and any(isinstance(c, ast.Call) and getattr(c.func, "id", "") in ("Variable", "Terminal")
-                                           for st in sub.body for c in ast.walk(st)):
-            chain = sub
-            break
-    if chain is None:
-        return None, "no if/elif chain constructing Variable / Terminal found"
-
-    # locals assigned exactly once by `name = <expr>` are read through (named booleans such as `forced_terminal`)
+    """The reader's classification of a body component as a function of the atoms it tests.  The block that constructs
+    Variable / Terminal objects (the innermost loop body that contains both constructors) is run on its boolean
+    skeleton: for a valuation of the semantic atoms (first letter upper-case, marker VAR, marker TER, epsilon spelling)
+    the if-tests are evaluated - through `not/and/or`, single-assignment named booleans, nested ifs, elif chains and
+    early `continue`s alike - and the first constructor certainly executed is the class.  Returns (table, why)."""
     from .counters import _single_defs
+    from .flow import executed_calls
     defs = _single_defs(fn.node)
+
+    def ctor(c):
+        return isinstance(c, ast.Call) and getattr(c.func, "id", "") in ("Variable", "Terminal")
+    block = None
+    for lp in ast.walk(fn.node):
+        if isinstance(lp, ast.For):
+            names = {c.func.id for st in lp.body for c in ast.walk(st) if ctor(c)}
+            if names == {"Variable", "Terminal"}:
+                block = lp.body          # ast.walk is breadth first: the last hit is the innermost loop
+    if block is None:
+        return None, "no loop constructing both Variable and Terminal found"
 
     def atom(e):
         txt = ast.unparse(e)
@@ -303,44 +318,44 @@ def classifier_table(fn):
             return ("upper", True)
         return None
 
-    def ev(e, atoms):
+    def value(e, atoms):
         if isinstance(e, ast.BoolOp):
-            vals = [ev(v, atoms) for v in e.values]
+            vals = [value(v, atoms) for v in e.values]
             if any(v is None for v in vals):
                 return None
             return all(vals) if isinstance(e.op, ast.And) else any(vals)
         if isinstance(e, ast.UnaryOp) and isinstance(e.op, ast.Not):
-            v = ev(e.operand, atoms)
+            v = value(e.operand, atoms)
             return None if v is None else (not v)
         if isinstance(e, ast.Name) and e.id in defs and isinstance(defs[e.id], (ast.BoolOp, ast.Compare, ast.UnaryOp, ast.Call)):
-            return ev(defs[e.id], atoms)
+            return value(defs[e.id], atoms)
         a = atom(e)
         if a is None:
             return None
         name, pos = a
         return atoms[name] if pos else (not atoms[name])
-
-    branches = []
-    cur = chain
-    while True:
-        cls = None
-        for st in cur.body:
-            for c in ast.walk(st):
-                if isinstance(c, ast.Call) and getattr(c.func, "id", "") in ("Variable", "Terminal"):
-                    cls = c.func.id
-        branches.append((cur.test, cls))
-        if len(cur.orelse) == 1 and isinstance(cur.orelse[0], ast.If):
-            cur = cur.orelse[0]
-        else:
-            break
+    skel = block_atoms(block)
     probe = {"upper": False, "VAR": False, "TER": False, "eps": False}
-    for t, _ in branches:
-        if ev(t, probe) is None:
-            return None, "a test of the chain uses something else than the known atoms: " + ast.unparse(t)
+    for key, node in skel.items():
+        if value(node, probe) is None and any(ctor(c) for st in block for c in ast.walk(st)) and \
+                not _is_marker_test(node):
+            return None, "a test of the classifier uses something else than the known atoms: " + ast.unparse(node)
 
     def table(atoms):
-        for t, cls in branches:
-            if ev(t, atoms):
-                return cls
+        asg = {}
+        for key, node in skel.items():
+            v = value(node, atoms)
+            # `if is_special_text(component):` only decides how the marker is split off; the markers themselves are atoms
+            asg[key] = (atoms["VAR"] or atoms["TER"]) if v is None else v
+        for c in executed_calls(block, asg):
+            if ctor(c):
+                return c.func.id
         return None
     return table, ""
+
+
+def _is_marker_test(node):
+    return isinstance(node, ast.Call) and getattr(node.func, "id", "").startswith("is_special") or \
+        (isinstance(node, ast.Name))
+
+
